@@ -133,6 +133,47 @@ def step (st : Unit) (n : Nat) (ln : Line) : Unit × List String :=
       ++ (if hole then ["COV rd.hole"] else []) ++ (if hole ∧ fill ≠ 0 then ["COV rd.hole-dirty-buffer"] else [])
       ++ (if fs > ext then ["COV rd.tail-below-filesize"] else []) ++ (if fs < ext then ["COV rd.filesize-below-extent"] else [])
       ++ (if views.length > cs.length then ["COV rd.split"] else []))
+  | "rf" =>
+    let (ns, _) := parseNodes (a.drop 7)
+    let cs := flatten ns
+    let fs := tokNat (a.getD 0 "0")
+    let fill := tokNat (a.getD 1 "0")
+    let faulty := if a.getD 4 "-" == "-" then [] else ((a.getD 4 "-").splitOn ",").map tokNat
+    let ok : Nat → Bool := fun f => !faulty.contains f
+    let wins1 := parseWins (a.getD 5 "-")
+    let wins2 := parseWins (a.getD 6 "-")
+    let views := viewFromChunks ns 0 maxInt64
+    let rdTok := fun (okf : Nat → Bool) (w : Nat × Nat) =>
+      let (cnt, e, out) := readAtF okf content views fs (List.replicate w.2 fill) w.1
+      s!"{cnt}:{e}:{hexOfNats out}"
+    let model := viewsTok views :: (wins1.map (rdTok ok) ++ ["|"] ++ wins2.map (rdTok fun _ => true))
+    let wf := wellFormed ns ∧ extent cs ≤ fs
+    let o1 := (o.drop 1).takeWhile (· != "|")
+    let o2 := ((o.drop 1).dropWhile (· != "|")).drop 1
+    -- judge: a read either reports an error (and the n bytes it did deliver are content bytes) or is exact
+    let j1 := if !wf then [] else
+      (wins1.zip o1).flatMap fun ((off, len), tok) =>
+        match tok.splitOn ":" with
+        | [cnt, e, hex] =>
+          if e == "2" then
+            if (List.range (tokNat cnt)).all fun i => byteOk content cs (off + i) ((tokBytes hex).getD i 999) then []
+            else [specfail n "ReadAt/wrong-bytes-before-fetch-error" s!"window {off}+{len}"]
+          else match readJudge content cs fs off len (tokNat cnt) (e == "1") (tokBytes hex) with
+            | none => []
+            | some _ => [specfail n "ReadAt/fetch-fault-wrong-bytes-without-error" s!"window {off}+{len} fileSize {fs} faulty {a.getD 4 "-"} kind {a.getD 3 ""}"]
+        | _ => [specfail n "ReadAt/fetch-fault-wrong-bytes-without-error" s!"window {off}+{len}"]
+    let j2 := if !wf then [] else
+      (wins2.zip o2).flatMap fun ((off, len), tok) =>
+        match tok.splitOn ":" with
+        | [cnt, e, hex] =>
+          if e != "2" ∧ (readJudge content cs fs off len (tokNat cnt) (e == "1") (tokBytes hex)).isNone then []
+          else [specfail n "ReadAt/wrong-after-recovery" s!"window {off}+{len} fileSize {fs} faulty {a.getD 4 "-"} kind {a.getD 3 ""}"]
+        | _ => [specfail n "ReadAt/wrong-after-recovery" s!"window {off}+{len}"]
+    let errs := (model.drop 1).filter fun t => (t.splitOn ":").getD 1 "" == "2"
+    (st, diff n ln model ++ j1.take 1 ++ j2.take 1 ++ ["COV rf", s!"COV rf.kind-{(a.getD 3 "").takeWhile (· != '.')}"]
+      ++ (if errs.isEmpty then [] else ["COV rf.error"]) ++ (if errs.any fun t => !t.startsWith "0:" then ["COV rf.error-after-partial-delivery"] else [])
+      ++ (if !faulty.isEmpty ∧ (model.drop 1).any (fun t => t != "|" ∧ (t.splitOn ":").getD 1 "" != "2" ∧ !t.startsWith "0:") then ["COV rf.read-unaffected-by-fault"] else [])
+      ++ (if !errs.isEmpty ∧ wins2 ≠ [] then ["COV rf.recovered"] else []))
   | "tie" =>
     let (ns, _) := parseNodes a
     let cs := flatten ns
